@@ -215,6 +215,7 @@ func Parse(input string) (*Tree, error) {
 // Parse begins parsing, returning an error, if any.
 func (t *Tree) Parse() error {
 	go t.lex.tokenize()
+	defer t.lex.stop()
 	for {
 		n, err := t.parse()
 		if err != nil {
